@@ -138,6 +138,8 @@ func authorizerFor() func(int, string, string, string) int {
 				gate.arrive("C")
 			} else if a1 == "domains" {
 				gate.arrive("D") // CreateDomain (shared database)
+			} else if a1 == "uid_validity_seq" {
+				gate.arrive("V") // nextUIDValidityPerUser (UIDVALIDITY allocator)
 			}
 		case sqliteRead:
 			if kind == sqliteSelect && a1 == "mailboxes" && a2 == "uid_next" {
